@@ -122,7 +122,7 @@ func selftest(tier string) (killed, total int, notes []string) {
 	b := boundsFor(tier)
 	slipLike := variant{slipRest: true, dupRight: true, unknownError: false}
 	muts := []mutation{mMissingRequiredAccepted, mTooManyAccepted, mOptionalDefaultIgnored, mRestDropsFirst, mKeysByPosition,
-		mKeywordSkipsOptional, mKeyDefaultIgnored, mUnknownKeyClobbersParam}
+		mKeywordSkipsOptional, mKeyDefaultIgnored, mUnknownKeyClobbersParam, mExplicitNilIsAbsent}
 	alive := map[mutation]bool{}
 	for _, m := range muts {
 		alive[m] = true
